@@ -43,7 +43,7 @@ type Prop struct {
 
 var registry = map[string]*Prop{}
 
-func Register(p *Prop) { registry[p.ID] = p }
+func Register(p *Prop)       { registry[p.ID] = p }
 func Lookup(id string) *Prop { return registry[id] }
 func IDs() []string {
 	var ids []string
